@@ -120,6 +120,26 @@ fn find_and_play_best_move(
     board
 }
 
+/*
+    Clock values are integers of no particular size. One that does not fit saturates instead
+    of taking the whole engine down, anything that is not an integer is ignored
+*/
+fn parse_clock_value(value: &str) -> Option<i128> {
+    match value.parse::<i128>() {
+        Ok(number) => Some(number),
+        Err(_) => {
+            let digits = value.strip_prefix('-').or_else(|| value.strip_prefix('+')).unwrap_or(value);
+            if digits.is_empty() || !digits.chars().all(|c| c.is_ascii_digit()) {
+                None
+            } else if value.starts_with('-') {
+                Some(i128::MIN)
+            } else {
+                Some(i128::MAX)
+            }
+        }
+    }
+}
+
 // parse the go command and get relevant info about the current game time
 fn parse_go_command(commands: &[&str]) -> GameTime {
     let mut gt = GameTime {
@@ -134,23 +154,25 @@ fn parse_go_command(commands: &[&str]) -> GameTime {
     while i + 1 < commands.len() {
         match commands[i] {
             "wtime" => {
-                gt.wtime = commands[i + 1].parse().unwrap();
+                gt.wtime = parse_clock_value(commands[i + 1]).unwrap_or(gt.wtime);
                 i += 1;
             }
             "btime" => {
-                gt.btime = commands[i + 1].parse().unwrap();
+                gt.btime = parse_clock_value(commands[i + 1]).unwrap_or(gt.btime);
                 i += 1;
             }
             "binc" => {
-                gt.binc = commands[i + 1].parse().unwrap();
+                gt.binc = parse_clock_value(commands[i + 1]).unwrap_or(gt.binc);
                 i += 1;
             }
             "winc" => {
-                gt.winc = commands[i + 1].parse().unwrap();
+                gt.winc = parse_clock_value(commands[i + 1]).unwrap_or(gt.winc);
                 i += 1;
             }
             "movestogo" => {
-                gt.movestogo = Some(commands[i + 1].parse().unwrap());
+                if let Some(moves) = parse_clock_value(commands[i + 1]) {
+                    gt.movestogo = Some(moves.clamp(0, u32::MAX as i128) as u32);
+                }
                 i += 1;
             }
             _ => (),
